@@ -171,8 +171,8 @@ def text_probe(val, origin, pres, chunks, wrap):
     except Exception as e:
         fam = classify_exception(e)
         return ("to_text-raised-" + fam + ":" + core.exc_sig(e), f"to_text raised {e!r}")
-    if mode == "self":
-        expect = rd
+    if mode == "self" or val.tname in ("TSIG", "TKEY"):
+        expect = rd  # (the text parsers of TSIG and TKEY never relativize: the names of these meta RRs stay absolute)
     else:
         expect = GR.build(normalized(val, origin, mode))
     src = t
